@@ -10,6 +10,8 @@
 (declare-fun tMi (Time) Int)
 (declare-fun tS (Time) Int)
 (declare-fun tNs (Time) Int)
+(declare-fun daysIn (Int Int) Int)   ; days in month m of year y (proleptic Gregorian): uninterpreted, 28..31
+(assert (forall ((y Int) (m Int)) (! (and (<= 28 (daysIn y m)) (<= (daysIn y m) 31)) :pattern ((daysIn y m)))))
 (define-fun civRanges ((t Time)) Bool
   (and (<= 1 (tMo t)) (<= (tMo t) 12) (<= 1 (tD t)) (<= (tD t) 31) (<= 0 (tH t)) (<= (tH t) 23)
        (<= 0 (tMi t)) (<= (tMi t) 59) (<= 0 (tS t)) (<= (tS t) 59) (<= 0 (tNs t)) (<= (tNs t) 999999999)
@@ -54,7 +56,7 @@
     (cmpI (tD a) (tD b))))))))
 ; type invariant of system.Date: UTC, midnight, fields below the precision at their defaults
 (define-fun validDateT ((t Time) (l String)) Bool
-  (and (>= (datePrec l) 0) (= (tOff t) 0) (civRanges t) (= (tH t) 0) (= (tMi t) 0) (= (tS t) 0) (= (tNs t) 0)
+  (and (>= (datePrec l) 0) (= (tOff t) 0) (civRanges t) (<= (tD t) (daysIn (tY t) (tMo t))) (= (tH t) 0) (= (tMi t) 0) (= (tS t) 0) (= (tNs t) 0)
        (=> (< (datePrec l) 1) (= (tMo t) 1)) (=> (< (datePrec l) 2) (= (tD t) 1))))
 ; the same instant seen in UTC
 (declare-fun utcT (Time) Time)
@@ -97,7 +99,7 @@
   (and (>= (timePrec l) 0) (= (tOff t) 0) (civRanges t) (= (tY t) 0) (= (tMo t) 1) (= (tD t) 1)
        (=> (< (timePrec l) 1) (= (tMi t) 0)) (=> (< (timePrec l) 2) (and (= (tS t) 0) (= (tNs t) 0)))))
 (define-fun validDTT ((t Time) (l String)) Bool
-  (and (>= (dtPrec l) 0) (civRanges t) (civRanges (utcT t))
+  (and (>= (dtPrec l) 0) (civRanges t) (civRanges (utcT t)) (<= (tD t) (daysIn (tY t) (tMo t)))
        (=> (< (dtPrec l) 3) (= (tOff t) 0))
        ; zone offsets are whole minutes; at hour precision the claim covers whole-hour offsets
        (= (mod (tOff t) 60) 0) (=> (= (dtPrec l) 3) (= (mod (tOff t) 3600) 0))
@@ -128,3 +130,33 @@
   (ite (isUnit u "year") (* v 12) (ite (isUnit u "month") v (ite (isUnit u "week") (tdiv (* v 7) 30) (ite (isUnit u "day") (tdiv v 30)
   (ite (isUnit u "hour") (tdiv v 720) (ite (isUnit u "minute") (tdiv v 43200) (ite (isUnit u "second") (tdiv v 2592000)
   (tdiv (tdiv v 2592000) 1000)))))))))
+; ---- C09: calendar arithmetic at civil-field level ---------------------------------------------
+; month arithmetic: year and month reached from (y, mo) by adding n months
+(define-fun monthIdx ((y Int) (mo Int) (n Int)) Int (+ (* y 12) (- mo 1) n))
+(define-fun yearAfter ((y Int) (mo Int) (n Int)) Int (div (monthIdx y mo n) 12))
+(define-fun monthAfter ((y Int) (mo Int) (n Int)) Int (+ (mod (monthIdx y mo n) 12) 1))
+; time of day in nanoseconds; ASSUMED: for a UTC value it is the instant modulo one day (the
+; epoch is a midnight, no leap seconds)
+(define-fun todNs ((t Time)) Int (+ (* (tH t) 3600000000000) (* (tMi t) 60000000000) (* (tS t) 1000000000) (tNs t)))
+(assert (forall ((t Time)) (! (=> (and (= (tOff t) 0) (civRanges t)) (= (todNs t) (mod (tInst t) 86400000000000))) :pattern ((tInst t) (tOff t)))))
+(define-fun sameTimeOfDay ((a Time) (b Time)) Bool
+  (and (= (tH a) (tH b)) (= (tMi a) (tMi b)) (= (tS a) (tS b)) (= (tNs a) (tNs b)) (= (tOff a) (tOff b))))
+; ---- time.Format / time.Parse round trip (ASSUMED): formatting a value with one of the
+; DateTime layouts and parsing it back truncates it to the layout's precision ----------------------
+(declare-fun fmtS (Time String) String)
+(declare-fun parseOkS (String String) Bool)
+(declare-fun parseS (String String) Time)
+(declare-fun truncDT (Time Int) Time)
+(assert (forall ((t Time) (l String)) (! (=> (>= (dtPrec l) 0)
+    (and (parseOkS l (fmtS t l)) (= (parseS l (fmtS t l)) (truncDT t (dtPrec l)))))
+   :pattern ((fmtS t l)))))
+(assert (forall ((t Time) (p Int)) (! (=> (civRanges t)
+    (and (civRanges (truncDT t p)) (civRanges (utcT (truncDT t p))) (= (tOff (truncDT t p)) (tOff t)) (= (tY (truncDT t p)) (tY t))
+         (= (tMo (truncDT t p)) (ite (>= p 1) (tMo t) 1)) (= (tD (truncDT t p)) (ite (>= p 2) (tD t) 1))
+         (= (tH (truncDT t p)) (ite (>= p 3) (tH t) 0)) (= (tMi (truncDT t p)) (ite (>= p 4) (tMi t) 0))
+         (= (tS (truncDT t p)) (ite (>= p 5) (tS t) 0)) (=> (< p 5) (= (tNs (truncDT t p)) 0))
+         ; a value that has nothing below the precision is unchanged
+         (=> (and (=> (< p 1) (= (tMo t) 1)) (=> (< p 2) (= (tD t) 1)) (=> (< p 3) (= (tH t) 0)) (=> (< p 4) (= (tMi t) 0))
+                  (=> (< p 5) (and (= (tS t) 0) (= (tNs t) 0))))
+             (=> (< p 5) (= (tInst (truncDT t p)) (tInst t))))))
+   :pattern ((truncDT t p)))))
